@@ -23,10 +23,14 @@ import (
 	"fmt"
 	"io"
 	"log/slog"
+	"net/http"
+	"net/http/httptest"
+	neturl "net/url"
 	"os"
 	"path/filepath"
 	"sort"
 	"strings"
+	"sync"
 
 	"chainguard.dev/apko/pkg/apk/apk"
 	apkfs "chainguard.dev/apko/pkg/apk/fs"
@@ -105,8 +109,9 @@ func firstName(member []byte) (string, bool) {
 	return h.Name, true
 }
 
-// the first .PKGINFO of a member read as control section: pkgdesc and every datahash value
-func ctlView(member []byte) (desc string, dhs []string, ok bool) {
+// the first .PKGINFO of a member read as control section: pkgdesc (as go-ini reads it for the package
+// information: the value of a pkgdesc line) and the text itself — the datahash values are extracted in Coq
+func ctlView(member []byte) (desc string, text []byte, ok bool) {
 	t, ok := gunzipAll(member)
 	if !ok {
 		return "", nil, false
@@ -125,15 +130,8 @@ func ctlView(member []byte) (desc string, dhs []string, ok bool) {
 			return "", nil, false
 		}
 		for _, line := range strings.Split(string(b), "\n") {
-			parts := strings.Split(line, "=")
-			if len(parts) != 2 {
-				continue
-			}
-			switch strings.TrimSpace(parts[0]) {
-			case "datahash":
-				dhs = append(dhs, strings.TrimSpace(parts[1]))
-			case "pkgdesc":
-				desc = strings.TrimSpace(parts[1])
+			if k, v, found := strings.Cut(line, "="); found && strings.TrimSpace(k) == "pkgdesc" {
+				desc = strings.TrimSpace(v)
 			}
 		}
 		// the whole archive must be readable (tarfs.New indexes all of it)
@@ -144,11 +142,40 @@ func ctlView(member []byte) (desc string, dhs []string, ok bool) {
 				return "", nil, false
 			}
 		}
-		return desc, dhs, true
+		return desc, b, true
 	}
 }
 
+// a text as pieces for Corr/C05.txt: printable runs as literals, every other byte and every long run of one byte as (R n c)
+func galText(b []byte) string {
+	var segs []string
+	lit := []byte{}
+	flush := func() {
+		if len(lit) > 0 {
+			segs = append(segs, `L "`+strings.ReplaceAll(string(lit), `"`, `""`)+`"`)
+			lit = lit[:0]
+		}
+	}
+	for i := 0; i < len(b); {
+		j := i
+		for j < len(b) && b[j] == b[i] {
+			j++
+		}
+		printable := b[i] >= 0x20 && b[i] <= 0x7e
+		if j-i >= 32 || !printable {
+			flush()
+			segs = append(segs, fmt.Sprintf(`R %d "%03d"`, j-i, b[i]))
+		} else {
+			lit = append(lit, b[i:j]...)
+		}
+		i = j
+	}
+	flush()
+	return "(txt " + gal.List(segs) + ")"
+}
+
 type entry struct {
+	sparse           bool // archive/tar expanded it from a GNU / PAX sparse representation
 	name, kind, link string
 	body             []byte
 	sum              string // Gallina term of the recorded checksum
@@ -191,15 +218,21 @@ func untar(t []byte) ([]entry, bool) {
 		if err != nil {
 			return nil, false
 		}
-		e := entry{name: h.Name, sum: recsum(h)}
-		switch h.Typeflag {
-		case tar.TypeReg:
-			e.kind = "FReg"
-			b, err := io.ReadAll(tr)
-			if err != nil {
-				return nil, false
+		e := entry{name: h.Name, sum: recsum(h), sparse: h.Typeflag == tar.TypeGNUSparse}
+		for k := range h.PAXRecords {
+			if strings.HasPrefix(k, "GNU.sparse.") {
+				e.sparse = true
 			}
-			e.body = b
+		}
+		// whatever content the entry carries (nothing for the header-only types)
+		b, err := io.ReadAll(tr)
+		if err != nil {
+			return nil, false
+		}
+		e.body = b
+		switch h.Typeflag {
+		case tar.TypeReg: // archive/tar reports the old '\x00' flag as TypeReg too
+			e.kind = "FReg"
 		case tar.TypeDir:
 			e.kind = "FDir"
 		case tar.TypeSymlink:
@@ -266,8 +299,8 @@ func (t *tables) id(raw []byte) []byte {
 	} else {
 		t.first[string(v)] = "None"
 	}
-	if d, dhs, ok := ctlView(raw); ok {
-		t.ctl[string(v)] = "(Some " + gal.Pair(gal.Str(d), gal.StrList(dhs)) + ")"
+	if d, text, ok := ctlView(raw); ok {
+		t.ctl[string(v)] = "(Some " + gal.Pair(gal.Str(d), galText(text)) + ")"
 	} else {
 		t.ctl[string(v)] = "None"
 	}
@@ -305,11 +338,11 @@ func (t *tables) data(members [][]byte) {
 					s := sha1.Sum(nil) //nolint:gosec
 					t.sha1[""] = s[:]
 				}
-				if e.kind == "FReg" || e.kind == "FLink" {
+				if e.kind == "FReg" || e.kind == "FLink" || e.kind == "FOther" {
 					t.names[e.name] = true
 				}
-				fs = append(fs, fmt.Sprintf("{| f_name := %s; f_kind := %s; f_body := %s; f_sum := %s; f_link := %s |}",
-					gal.Str(e.name), e.kind, hb(t.body(e.body)), e.sum, gal.Str(e.link)))
+				fs = append(fs, fmt.Sprintf("{| f_name := %s; f_kind := %s; f_body := %s; f_sum := %s; f_link := %s; f_sparse := %s |}",
+					gal.Str(e.name), e.kind, hb(t.body(e.body)), e.sum, gal.Str(e.link), gal.Bool(e.sparse)))
 			}
 			t.untar[string(tid)] = "(Some " + gal.List(fs) + ")"
 		}
@@ -372,8 +405,32 @@ func galTermTable(m map[string]string) string {
 
 // ---- steps ----------------------------------------------------------------------
 
+// the http origin: what is under each URL path right now
+var origin = struct {
+	sync.Mutex
+	files map[string][]byte
+	srv   *httptest.Server
+}{files: map[string][]byte{}}
+
+func startOrigin() {
+	origin.srv = httptest.NewServer(http.HandlerFunc(func(w http.ResponseWriter, r *http.Request) {
+		origin.Lock()
+		b, ok := origin.files[r.URL.Path]
+		origin.Unlock()
+		if !ok {
+			http.NotFound(w, r)
+			return
+		}
+		w.Header().Set("Content-Length", fmt.Sprint(len(b)))
+		_, _ = w.Write(b)
+	}))
+}
+
 type step struct {
 	NewProcess bool    `json:"new_process"`
+	Http       bool    `json:"http,omitempty"`    // the package URL is http:// (served by the harness's origin; through the cache transport when a cache is configured)
+	Offline    bool    `json:"offline,omitempty"` // the cache is configured offline
+	Whole      *served `json:"whole,omitempty"`   // the whole .apk pre-populated under the URL-derived name in the cache directory (nil: no such file)
 	Cache      int     `json:"cache"`              // -1 none, else directory number
 	DropTar    bool    `json:"drop_tar,omitempty"` // before the step every *.dat.tar of that cache directory is removed (a cache written before apko kept the uncompressed copy)
 	Lazy       bool    `json:"lazy"`
@@ -428,9 +485,11 @@ func runCase(root string, n int, sc *seqCase) gal.Case {
 	// the model's view of every served stream (fills the tables, among them the names to read back)
 	galServed := map[*served]string{}
 	for _, s := range sc.Steps {
-		if s.Serve != nil && s.RawURL == "" {
-			if _, ok := galServed[s.Serve]; !ok {
-				galServed[s.Serve] = t.galStream(s.Serve)
+		for _, sv := range []*served{s.Serve, s.Whole} {
+			if sv != nil && s.RawURL == "" {
+				if _, ok := galServed[sv]; !ok {
+					galServed[sv] = t.galStream(sv)
+				}
 			}
 		}
 	}
@@ -460,7 +519,36 @@ func runCase(root string, n int, sc *seqCase) gal.Case {
 			url = filepath.Join(dir, s.RawURL)
 		}
 		os.Remove(url)
-		if s.Serve != nil && s.RawURL == "" {
+		termURL := strings.TrimPrefix(url, dir+"/")
+		if s.Http {
+			repoName := "repo"
+			if s.Dir != "" {
+				repoName = s.Dir
+			}
+			path := fmt.Sprintf("/case%d/%s/x86_64/pkg-1.0-r0.apk", n, repoName)
+			url = origin.srv.URL + path
+			termURL = "http://origin/" + repoName + "/x86_64/pkg-1.0-r0.apk"
+			origin.Lock()
+			if s.Serve != nil {
+				origin.files[path] = s.Serve.bytes()
+			} else {
+				delete(origin.files, path)
+			}
+			origin.Unlock()
+			if s.Cache >= 0 {
+				// the file the cache transport looks for: <cache>/<escaped repository URL>/<arch>/<file>
+				wp := filepath.Join(dir, fmt.Sprintf("cache%d", s.Cache), neturl.QueryEscape(fmt.Sprintf("%s/case%d/%s", origin.srv.URL, n, repoName)), "x86_64", "pkg-1.0-r0.apk")
+				os.Remove(wp)
+				if s.Whole != nil {
+					if err := os.MkdirAll(filepath.Dir(wp), 0o755); err != nil {
+						panic(err)
+					}
+					if err := os.WriteFile(wp, s.Whole.bytes(), 0o644); err != nil {
+						panic(err)
+					}
+				}
+			}
+		} else if s.Serve != nil && s.RawURL == "" {
 			if err := os.WriteFile(url, s.Serve.bytes(), 0o644); err != nil {
 				panic(err)
 			}
@@ -481,7 +569,7 @@ func runCase(root string, n int, sc *seqCase) gal.Case {
 		}
 		opts := []apk.Option{apk.WithFS(fsys), apk.WithArch("x86_64"), apk.WithIgnoreMknodErrors(true)}
 		if s.Cache >= 0 {
-			opts = append(opts, apk.WithCache(filepath.Join(dir, fmt.Sprintf("cache%d", s.Cache)), false, apk.NewCache(false)))
+			opts = append(opts, apk.WithCache(filepath.Join(dir, fmt.Sprintf("cache%d", s.Cache)), s.Offline, apk.NewCache(false)))
 		}
 		var o observed
 		func() {
@@ -564,8 +652,12 @@ func runCase(root string, n int, sc *seqCase) gal.Case {
 			b64seen[s.Checksum] = true
 			b64rows = append(b64rows, b64Row(s.Checksum))
 		}
-		steps = append(steps, fmt.Sprintf("{| s_new_process := %s; s_cache := %s; s_drop_tar := %s; s_lazy := %s; s_handle := %s; s_served := %s; o_out := %s |}",
-			gal.Bool(s.NewProcess), cache, gal.Bool(s.DropTar), gal.Bool(s.Lazy), galHandle(strings.TrimPrefix(url, dir+"/"), s.Checksum), srv, out))
+		whole := "None"
+		if s.Whole != nil && s.Http && s.Cache >= 0 {
+			whole = "(Some " + galServed[s.Whole] + ")"
+		}
+		steps = append(steps, fmt.Sprintf("{| s_new_process := %s; s_cache := %s; s_drop_tar := %s; s_lazy := %s; s_http := %s; s_offline := %s; s_handle := %s; s_whole := %s; s_served := %s; o_out := %s |}",
+			gal.Bool(s.NewProcess), cache, gal.Bool(s.DropTar), gal.Bool(s.Lazy), gal.Bool(s.Http), gal.Bool(s.Offline && s.Cache >= 0), galHandle(termURL, s.Checksum), whole, srv, out))
 	}
 	term := fmt.Sprintf("{| q_sha1 := %s; q_sha256 := %s; q_b64 := %s; q_first := %s; q_ctl := %s; q_gunzip := %s; q_untar := %s; q_steps := %s |}",
 		galBytesTable(t.sha1), galBytesTable(t.sha256), gal.List(b64rows), galTermTable(t.first), galTermTable(t.ctl),
@@ -581,8 +673,9 @@ func runCase(root string, n int, sc *seqCase) gal.Case {
 // ---- generators -------------------------------------------------------------------
 
 type gen struct {
-	key *synthrepo.Key
-	n   int
+	key      *synthrepo.Key
+	n        int
+	thorough bool
 }
 
 func (g *gen) build(p *synthrepo.Pkg) *synthrepo.Built {
@@ -843,6 +936,103 @@ func (g *gen) variants(tag string) []variant {
 		c6 := seg([]synthrepo.File{{Name: ".PKGINFO", Mode: 0o644, Content: p.Pkginfo(hex256(junk), 0)}}, false, false)
 		addS("stream", "data section is not a tar archive", stream("as indexed", c6, junk), q1(c6), stream("as indexed", c6, junk))
 	}
+	// ---- the .PKGINFO text: long lines, line endings, white space, several datahash lines -------------------------------
+	{
+		base := &synthrepo.Pkg{Name: "pkg", Version: "1.0-r0", Arch: "x86_64", Description: "pkginfo-text/" + tag, NoDatahash: true}
+		dh := hex.EncodeToString(G.DataSHA256)
+		head := string(base.Pkginfo("", G.InstalledSize)) // every line but the datahash one
+		texts := []struct{ name, text string }{
+			{"datahash=<digest> without blanks", head + "datahash=" + dh + "\n"},
+			{"tabs, blanks and a no-break space around key and value", head + "\t datahash \t=\t " + dh + " \u00a0\n"},
+			{"CR LF line ends", strings.ReplaceAll(head+"datahash = "+dh+"\n", "\n", "\r\n")},
+			{"no newline after the datahash line", head + "datahash = " + dh},
+			{"the datahash line comes first", "datahash = " + dh + "\n" + head},
+			{"empty lines and a comment around the datahash line", head + "\n\n# datahash follows\ndatahash = " + dh + "\n\n"},
+			{"the right datahash twice", head + "datahash = " + dh + "\ndatahash = " + dh + "\n"},
+			{"a line of 65535 bytes before the datahash line", head + "provides = " + strings.Repeat("x", 65535-11) + "\ndatahash = " + dh + "\n"},
+			{"a line of 65536 bytes before the datahash line", head + "provides = " + strings.Repeat("x", 65536-11) + "\ndatahash = " + dh + "\n"},
+			{"a line of 70000 bytes before the datahash line", head + "provides = " + strings.Repeat("x", 70000-11) + "\ndatahash = " + dh + "\n"},
+			{"a line of 70000 bytes after the datahash line", head + "datahash = " + dh + "\nprovides = " + strings.Repeat("y", 70000-11) + "\n"},
+			{"a comment of 70000 bytes without '=' before the datahash line", head + "# " + strings.Repeat("z", 70000-2) + "\ndatahash = " + dh + "\n"},
+		}
+		if g.thorough {
+			texts = append(texts, struct{ name, text string }{"a line of 1 MiB before the datahash line", head + "provides = " + strings.Repeat("x", 1<<20) + "\ndatahash = " + dh + "\n"})
+		}
+		for _, t := range texts {
+			c := seg([]synthrepo.File{{Name: ".PKGINFO", Mode: 0o644, Content: []byte(t.text)}}, false, false)
+			ok := stream(".PKGINFO: "+t.name, G.Sig, c, G.Data)
+			addS("pkginfo", "indexed package, .PKGINFO: "+t.name, ok, q1(c), ok)
+			addS("pkginfo", ".PKGINFO: "+t.name+"; data swapped", ok, q1(c), stream("that control + data of another package", G.Sig, c, X.Data))
+		}
+		// a datahash line with two '=' is no key=value line: such a control section records NO datahash
+		c := seg([]synthrepo.File{{Name: ".PKGINFO", Mode: 0o644, Content: []byte(head + "datahash = " + dh + " = x\n")}}, false, false)
+		two := stream(".PKGINFO: datahash line with two '='", G.Sig, c, G.Data)
+		addS("pkginfo", "indexed package, .PKGINFO: datahash line with two '=' (records nothing)", two, q1(c), two)
+		addS("pkginfo", ".PKGINFO: datahash line with two '=' (records nothing); data swapped", two, q1(c), stream("that control + data of another package", G.Sig, c, X.Data))
+	}
+	// ---- data-section entries of every tar type flag, carrying a body and a checksum record where the format allows one ------------
+	{
+		p := &synthrepo.Pkg{Name: "pkg", Version: "1.0-r0", Arch: "x86_64"}
+		rec := func(of []byte) []byte {
+			return synthrepo.PaxMeta(map[string]string{"APK-TOOLS.checksum.SHA1": hex.EncodeToString(sha1sum(of))})
+		}
+		reg := func(name string, body []byte) []byte { return append(rec(body), synthrepo.RawEntry(name, body, '0')...) }
+		pkg := func(desc string, nodh bool, odd ...[]byte) *served {
+			raw := append([]byte{}, synthrepo.RawHeader("etc/", 0, '5', 0o755)...)
+			raw = append(raw, reg("etc/marker", []byte("T/"+tag))...)
+			raw = append(raw, synthrepo.RawHeader("usr/", 0, '5', 0o755)...)
+			raw = append(raw, reg("usr/tool", []byte("#!/bin/sh\necho T/"+tag+"\n"))...)
+			for _, o := range odd {
+				raw = append(raw, o...)
+			}
+			raw = append(raw, reg("usr/zlast", []byte("last/"+tag))...)
+			raw = append(raw, synthrepo.EOA()...)
+			dat, err := synthrepo.Gz(raw)
+			if err != nil {
+				panic(err)
+			}
+			pp := *p
+			pp.Description = desc + "/" + tag
+			pp.NoDatahash = nodh
+			c := seg([]synthrepo.File{{Name: ".PKGINFO", Mode: 0o644, Content: pp.Pkginfo(hex256(dat), 0)}}, false, false)
+			return stream(desc, G.Sig, c, dat)
+		}
+		ctlOf := func(s *served) []byte { return s.members[1] }
+		body, other := []byte("odd body/"+tag), []byte("other bytes/"+tag)
+		for _, fl := range []struct {
+			flag byte
+			name string
+		}{{0, "the old regular-file flag NUL"}, {'7', "a contiguous file '7'"}, {'Z', "an unknown flag 'Z'"}} {
+			gen := pkg("entry-"+fl.name, false, append(rec(body), synthrepo.RawEntry("usr/odd", body, fl.flag)...))
+			alt := pkg("entry-altered-"+fl.name, false, append(rec(other), synthrepo.RawEntry("usr/odd", body, fl.flag)...))
+			addS("types", "indexed package has "+fl.name+" with a body and its checksum record", gen, q1(ctlOf(gen)), gen)
+			addS("types", "indexed package has "+fl.name+" whose body disagrees with its checksum record", alt, q1(ctlOf(alt)), alt)
+		}
+		for _, fl := range []struct {
+			flag byte
+			name string
+		}{{'3', "a character device '3'"}, {'4', "a block device '4'"}, {'6', "a fifo '6'"}} {
+			gen := pkg("entry-"+fl.name, false, append(rec(nil), synthrepo.RawHeader("usr/odd", 0, fl.flag, 0o644)...))
+			addS("types", "indexed package has "+fl.name+" with a checksum record", gen, q1(ctlOf(gen)), gen)
+		}
+		sl := pkg("entry-symlink-wrong-record", false, append(rec(other), synthrepo.RawHeaderLink("usr/odd", "tool", '2', 0o777)...))
+		addS("types", "indexed package has a symlink whose checksum record is not that of its target name", sl, q1(ctlOf(sl)), sl)
+		hl := pkg("entry-hardlink-with-record", false, append(rec(other), synthrepo.RawHeaderLink("usr/odd", "usr/tool", '1', 0o755)...))
+		addS("types", "indexed package has a hard link carrying a checksum record of other bytes", hl, q1(ctlOf(hl)), hl)
+		// a PAX sparse regular entry: archive/tar yields its LOGICAL content ("ABCD", 8 zero bytes, "WXYZ"), the record is over that;
+		// stored are the two fragments "ABCDWXYZ" and then whatever fills the block
+		logical := append(append([]byte("ABCD"), make([]byte, 8)...), []byte("WXYZ")...)
+		sparse := func(after []byte) []byte {
+			return append(synthrepo.PaxMeta(map[string]string{"APK-TOOLS.checksum.SHA1": hex.EncodeToString(sha1sum(logical)), "GNU.sparse.major": "0", "GNU.sparse.minor": "1",
+				"GNU.sparse.name": "usr/sparse", "GNU.sparse.size": "16", "GNU.sparse.numblocks": "2", "GNU.sparse.map": "0,4,12,4"}),
+				synthrepo.RawEntryAfter("usr/GNUSparseFile.0/sparse", []byte("ABCDWXYZ"), '0', after)...)
+		}
+		sp := pkg("entry-sparse", false, sparse(nil))
+		addS("sparse", "fixed C05-F4 replay: indexed package has a sparse regular file (PAX 0.1) with the checksum record of its logical content", sp, q1(ctlOf(sp)), sp)
+		spNd := pkg("entry-sparse-no-datahash", true, sparse(nil))
+		spEvil := pkg("entry-sparse-altered-fill", true, sparse([]byte("EVILEVIL")))
+		addS("sparse", "fixed C05-F4 replay: sparse regular file, no datahash recorded, the bytes stored behind its fragments altered", spNd, q1(ctlOf(spNd)), stream("that control + data whose block fill behind the sparse fragments is altered", G.Sig, ctlOf(spNd), spEvil.members[2]))
+	}
 	// ---- fixed C05-F3 replays: exactly two members, the first starting with a .SIGN.* entry (refused since fix 3bc1979;
 	// before, the first member was taken for the control section, the second — SHA-1, no per-file check — for the data section)
 	for _, bad := range []bool{false, true} {
@@ -894,7 +1084,9 @@ func main() {
 		panic(err)
 	}
 	defer os.RemoveAll(root)
-	g := &gen{key: key}
+	startOrigin()
+	defer origin.srv.Close()
+	g := &gen{key: key, thorough: *tier == "thorough"}
 	r := gal.NewRand(*seed)
 	wr := &gal.Writer{Dir: *out, Require: "From Apko Require Import Corr.C05.", Type: "seq_case", Check: "check_seq", Shard: 60}
 	n := 0
@@ -919,20 +1111,51 @@ func main() {
 				cells[v.name+"/"+history+"/"+lz]++
 				run(&seqCase{Label: v.name + " / " + history + " / " + lz, Steps: steps, cell: c})
 			}
-			// cache disabled
+			// ---- the cache modes, for every variant: disabled / cold / warm / offline ----
 			cell("no cache", st(true, -1, v.serve))
 			// cold cache, then the same request again in a new process (warm or still cold)
 			cell("cold, then again in a new process", st(true, 0, v.serve), st(true, 0, v.serve))
 			// warm: a previous process cached what the index describes; now the origin serves the variant
 			cell("warm cache from an earlier process", st(true, 0, v.idx), st(true, 0, v.serve))
-			// warm, but the cache holds no uncompressed tar (written by an older apko, or pruned): rebuilt from the .dat.tar.gz
-			dropped := st(true, 0, v.serve)
-			dropped.DropTar = true
-			cell("warm cache without the uncompressed tar", st(true, 0, v.idx), dropped, st(true, 0, v.serve))
-			// substituted bytes first (must not poison the cache), then the origin is repaired, new process
-			cell("variant first, origin repaired, new process", st(true, 0, v.serve), st(true, 0, v.idx))
-			// same process: second request for the same URL (memo)
-			cell("same request twice in one process", st(true, 0, v.serve), st(false, 0, v.idx))
+			// offline: the cache directory was pre-populated with a whole .apk under the URL-derived name (nothing ever
+			// verified it); the build never asks the origin. Then again offline (content-addressed entries, if any were made)
+			off := step{NewProcess: true, Cache: 0, Lazy: lazy, Http: true, Offline: true, Checksum: v.chk, Whole: v.serve}
+			cell("offline, whole .apk pre-populated, then again", off, off)
+			// ---- further histories: all of them in the thorough tier, one per variant (rotating with the seed) in the quick tier ----
+			extras := []func(){
+				func() {
+					// warm, but the cache holds no uncompressed tar (written by an older apko, or pruned): rebuilt from the .dat.tar.gz
+					dropped := st(true, 0, v.serve)
+					dropped.DropTar = true
+					cell("warm cache without the uncompressed tar", st(true, 0, v.idx), dropped, st(true, 0, v.serve))
+				},
+				func() {
+					// substituted bytes first (must not poison the cache), then the origin is repaired, new process
+					cell("variant first, origin repaired, new process", st(true, 0, v.serve), st(true, 0, v.idx))
+				},
+				func() {
+					// same process: second request for the same URL (memo)
+					cell("same request twice in one process", st(true, 0, v.serve), st(false, 0, v.idx))
+				},
+				func() {
+					// online over http with a cache: a whole .apk under the URL-derived name beats the origin; then offline without it
+					cell("online over http, pre-populated whole .apk beats the origin, then offline without it",
+						step{NewProcess: true, Cache: 0, Lazy: lazy, Http: true, Checksum: v.chk, Whole: v.serve, Serve: v.idx},
+						step{NewProcess: true, Cache: 0, Lazy: lazy, Http: true, Offline: true, Checksum: v.chk})
+				},
+				func() {
+					// online over http: no cache, then cold, then offline from what the cold build stored
+					cell("online over http: no cache, cold, then offline",
+						step{NewProcess: true, Cache: -1, Lazy: lazy, Http: true, Checksum: v.chk, Serve: v.serve},
+						step{NewProcess: true, Cache: 0, Lazy: lazy, Http: true, Checksum: v.chk, Serve: v.serve},
+						step{NewProcess: true, Cache: 0, Lazy: lazy, Http: true, Offline: true, Checksum: v.chk})
+				},
+			}
+			for ei, e := range extras {
+				if *tier == "thorough" || (vi+int(*seed))%len(extras) == ei {
+					e()
+				}
+			}
 		}
 		// C05-F1: one process, the URL is republished: index and origin both move to another build
 		other := vs[3] // "different package under the URL": serve = X whole
@@ -1013,8 +1236,12 @@ func main() {
 		fams = append(fams, f)
 	}
 	sort.Strings(fams)
-	wr.Extra = map[string]any{"variants": len(vs), "variant_families": fams, "histories": 6, "install_paths": 2,
-		"cells": len(cells), "cells_expected": len(vs) * 6 * 2, "min_cases_per_cell": minCell}
+	hist := 5 // the four cache modes + one rotating history
+	if *tier == "thorough" {
+		hist = 9
+	}
+	wr.Extra = map[string]any{"variants": len(vs), "variant_families": fams, "cache_modes": []string{"disabled", "cold", "warm", "offline pre-populated"},
+		"further_histories": 5, "install_paths": 2, "cells": len(cells), "cells_expected": len(vs) * hist * 2, "min_cases_per_cell": minCell}
 	// one wave of the 16 parallel coqc jobs
 	if wr.Shard = (wr.Len() + 15) / 16; wr.Shard < 40 {
 		wr.Shard = 40
